@@ -13,6 +13,7 @@ import itertools
 import z3
 
 MAX_INST_PER_Q = 400
+SMALL_POOL = 12
 _keep = []  # keeps ASTs alive so that get_id() keys stay unique
 
 
@@ -23,7 +24,9 @@ def skolemize(assertions):
     r = z3.Tactic("snf")(g)
     out = []
     for sub in r:
-        out.extend(list(sub))
+        # simplify: accessor-of-constructor, select-over-store etc. are rewritten so that triggers can see through
+        # heap / dictionary updates
+        out.extend(z3.simplify(a) for a in sub)
     return out
 
 
@@ -57,6 +60,79 @@ def _contains_quant(e):
     return r
 
 
+class CC:
+    """Tiny congruence closure over the ground terms of the query, seeded with the top-level equalities.
+    Used only to decide which ground index terms a trigger may match (E-matching modulo asserted equalities)."""
+
+    def __init__(self, exprs):
+        self.parent = {}
+        self.terms = {}
+        seen = set()
+
+        def rec(e):
+            i = e.get_id()
+            if i in seen:
+                return
+            seen.add(i)
+            if z3.is_quantifier(e):
+                rec(e.body())
+                return
+            if z3.is_app(e):
+                for c in e.children():
+                    rec(c)
+                if not _has_var(e):
+                    self.terms[i] = e
+                    self.parent.setdefault(i, i)
+
+        def top_eqs(e):
+            if z3.is_and(e):
+                for c in e.children():
+                    top_eqs(c)
+            elif z3.is_eq(e) and not _has_var(e):
+                a, b = e.children()
+                self.union(a.get_id(), b.get_id())
+
+        for e in exprs:
+            rec(e)
+        for e in exprs:
+            top_eqs(e)
+        self.close()
+
+    def find(self, i):
+        p = self.parent.setdefault(i, i)
+        while p != self.parent[p]:
+            self.parent[p] = self.parent[self.parent[p]]
+            p = self.parent[p]
+        self.parent[i] = p
+        return p
+
+    def union(self, a, b):
+        ra, rb = self.find(a), self.find(b)
+        if ra != rb:
+            self.parent[max(ra, rb)] = min(ra, rb)
+            return True
+        return False
+
+    def close(self):
+        for _ in range(6):
+            sig = {}
+            changed = False
+            for i, t in self.terms.items():
+                if t.num_args() == 0:
+                    continue
+                k = (t.decl().get_id(), tuple(self.find(c.get_id()) for c in t.children()))
+                j = sig.get(k)
+                if j is None:
+                    sig[k] = i
+                elif self.union(i, j):
+                    changed = True
+            if not changed:
+                break
+
+    def rep(self, e):
+        return self.find(e.get_id())
+
+
 def _is_indexing(e):
     if not z3.is_app(e) or e.num_args() == 0:
         return False
@@ -71,8 +147,9 @@ def _fkey(e):
     return (d.name(), d.arity(), d.kind())
 
 
-def ground_index(exprs):
+def ground_index(exprs, cc=None):
     """(fkey, argpos) -> {id: ground term at that argument position}; plus free constants by sort."""
+    rid = (lambda o: cc.rep(o)) if cc is not None else (lambda o: o.get_id())
     idx = {}
     consts = {}
     seen = set()
@@ -94,18 +171,20 @@ def ground_index(exprs):
             fk = _fkey(e)
             for p, c in enumerate(ch):
                 if not _has_var(c) and not z3.is_array(c) and (not z3.is_seq(c) or z3.is_string(c)):
-                    others = tuple(o.get_id() for q, o in enumerate(ch) if q != p)
+                    others = tuple(rid(o) for q, o in enumerate(ch) if q != p)
                     idx.setdefault((fk, p, others), {})[c.get_id()] = c
                     idx.setdefault((fk, p, None), {})[c.get_id()] = c
+                    if e.decl().kind() == z3.Z3_OP_SELECT:
+                        idx.setdefault((fk, p, ("sort", ch[0].sort().get_id())), {})[c.get_id()] = c
                     if e.decl().kind() == z3.Z3_OP_SELECT and p == 1 and len(ch) == 2:
                         # select(store(A, a, b), t) also concerns A at t and at a (read-over-write)
                         base = ch[0]
                         while z3.is_app(base) and base.decl().kind() == z3.Z3_OP_STORE:
                             a = base.arg(1)
                             base = base.arg(0)
-                            idx.setdefault((fk, 1, (base.get_id(),)), {})[c.get_id()] = c
+                            idx.setdefault((fk, 1, (rid(base),)), {})[c.get_id()] = c
                             if not _has_var(a):
-                                idx.setdefault((fk, 1, (base.get_id(),)), {})[a.get_id()] = a
+                                idx.setdefault((fk, 1, (rid(base),)), {})[a.get_id()] = a
         for c in ch:
             rec(c)
 
@@ -118,8 +197,9 @@ def _sk(s):
     return s.name() if hasattr(s, "name") else str(s)
 
 
-def _triggers(body, nvars):
+def _triggers(body, nvars, cc=None):
     """var index -> list of (fkey, argpos, offset)."""
+    rid = (lambda o: cc.rep(o)) if cc is not None else (lambda o: o.get_id())
     trig = {j: [] for j in range(nvars)}
     seen = set()
 
@@ -155,8 +235,9 @@ def _triggers(body, nvars):
                     if 0 <= vi < nvars:
                         rest = [o for q, o in enumerate(ch) if q != p]
                         # match only occurrences on the same (ground) array / sequence / co-arguments
-                        others = tuple(o.get_id() for o in rest) if not any(_has_var(o) for o in rest) else None
-                        trig[vi].append((fk, p, vo[1], others))
+                        others = tuple(rid(o) for o in rest) if not any(_has_var(o) for o in rest) else None
+                        bysort = ("sort", ch[0].sort().get_id()) if e.decl().kind() == z3.Z3_OP_SELECT else None
+                        trig[vi].append((fk, p, vo[1], others, bysort))
         for c in e.children():
             rec(c, depth)
 
@@ -164,19 +245,26 @@ def _triggers(body, nvars):
     return trig
 
 
-def instantiate_once(exprs, idx, consts, stats):
+def instantiate_once(exprs, idx, consts, stats, cc=None):
     cache = {}
 
     def candidates(e):
         n = e.num_vars()
-        trig = _triggers(e.body(), n)
+        trig = _triggers(e.body(), n, cc)
         out = []
         for j in range(n):
             # de Bruijn: variable j (0 = innermost/last) <-> quantifier position n-1-j
             sort = e.var_sort(n - 1 - j)
             c = {}
-            for fk, p, off, others in trig[j]:
-                for g in idx.get((fk, p, others), {}).values():
+            for fk, p, off, others, bysort in trig[j]:
+                pool = idx.get((fk, p, others), {})
+                if bysort is not None:
+                    # few ground index terms on arrays of this sort: take them all (covers updates hidden behind
+                    # case splits, e.g. select(store(vals, k, s), k2) where k == k2 is not known syntactically)
+                    wide = idx.get((fk, p, bysort), {})
+                    if len(wide) <= SMALL_POOL:
+                        pool = wide
+                for g in pool.values():
                     if g.sort() != sort:
                         continue
                     t = g if off == 0 else z3.simplify(g - off)
@@ -235,10 +323,11 @@ def make_qf(assertions, rounds=3):
     out = sk
     prev_size = -1
     for r in range(rounds):
-        idx, consts = ground_index(out if r else sk)
+        cc = CC(list(out) + list(sk))
+        idx, consts = ground_index(out if r else sk, cc)
         if r:
             # ground terms of the original query stay relevant
-            idx0, consts0 = ground_index(sk)
+            idx0, consts0 = ground_index(sk, cc)
             for k, d in idx0.items():
                 idx.setdefault(k, {}).update(d)
             for k, d in consts0.items():
@@ -249,6 +338,6 @@ def make_qf(assertions, rounds=3):
             break
         prev_size = size
         stats["instances"] = 0
-        out = instantiate_once(sk, idx, consts, stats)
+        out = instantiate_once(sk, idx, consts, stats, cc)
     stats["ground_terms"] = prev_size
     return out, stats
